@@ -688,7 +688,8 @@ def search_xls_values(branch):
 
 def search_xlsx_values():
     from sharepoint2text.parsing.extractors.ms_modern.xlsx_extractor import _get_cell_value
-    for v in (None, "a", 3, 2.5, True, False, datetime.timedelta(hours=1), "#DIV/0!", SAMPLE_DT, SAMPLE_DT.date(), SAMPLE_DT.time()):
+    for v in (None, "a", 3, 2.5, True, False, datetime.timedelta(hours=1), "#DIV/0!", SAMPLE_DT, SAMPLE_DT.date(), SAMPLE_DT.time(),
+              0.30000000000000004, 1 / 3, 1234567.123456789, -2.5e-17, 1e22, 0.1 + 0.7, 2 ** 53 + 2.0, -0.0, 10 ** 20, -7, ""):
         want = v.isoformat() if isinstance(v, (datetime.datetime, datetime.date, datetime.time)) else v
         r = _get_cell_value(v)
         if isinstance(v, datetime.timedelta) and r == str(v):
